@@ -66,39 +66,31 @@ func main() {
 }
 
 func combine(fields []st.Field) []st.Field {
-	new := st.Field{}
 	cur := ""
 	var out []st.Field
-	wasPad := true
 	for _, field := range fields {
-		var prefix string
 		if field.IsPadding {
-			wasPad = true
 			continue
 		}
 		p := strings.Split(field.Name, ".")
-		prefix = strings.Join(p[:2], ".")
+		prefix := strings.Join(p[:2], ".")
+		if prefix != cur || len(out) == 0 {
+			cur = prefix
+			field.Name = prefix
+			out = append(out, field)
+			continue
+		}
+		// Another field of the same nested struct. The struct is
+		// aligned like its most strictly aligned field and ends
+		// after its last field, rounded up to its alignment.
+		new := &out[len(out)-1]
+		new.Type = "struct"
 		if field.Align > new.Align {
 			new.Align = field.Align
 		}
-		if !wasPad {
-			new.End = field.Start
-			new.Size = new.End - new.Start
-		}
-		if prefix != cur {
-			if cur != "" {
-				out = append(out, new)
-			}
-			cur = prefix
-			new = field
-			new.Name = prefix
-		} else {
-			new.Type = "struct"
-		}
-		wasPad = false
+		new.End = align(field.End, new.Align)
+		new.Size = new.End - new.Start
 	}
-	new.Size = new.End - new.Start
-	out = append(out, new)
 	return out
 }
 
